@@ -1,83 +1,280 @@
 """Property -> rules table.  Each rule is a necessary, structural condition of the property
-(see DESIGN.md sections 3 and 4)."""
-from . import rules_iter
+(see DESIGN.md sections 3 and 4); what is NOT decided is stated in MANIFEST level_note."""
+from . import rules_iter as I
 from . import rules_decl as D
+from . import rules_order as O
+from . import rules_tables as T
+from . import rules_misc as M
+from .rules_decl import PQ, DPQ
+
+try:
+    from . import rules_sift as S
+except ImportError:  # pragma: no cover
+    S = None
+try:
+    from . import rules_cost as C
+except ImportError:  # pragma: no cover
+    C = None
+try:
+    from . import rules_bounds as B
+except ImportError:  # pragma: no cover
+    B = None
 
 
-def _iter_rules_c09(ctx, view):
-    rules_iter.r_cursor(ctx, view)
-    rules_iter.r_esi(ctx, view, only_types=lambda T: T.endswith("IterMut"), key_floor=1)
+# ---- rule bundles --------------------------------------------------------------------------
+def c01(ctx, v):
+    O.r_restore(ctx, v, PQ)
+    O.r_upboth(ctx, v, PQ)
+    O.r_extreme(ctx, v, PQ)
+    D.r_expose(ctx, v, PQ)
+    if S:
+        S.r_sift(ctx, v, PQ)
+    if B:
+        B.r_units(ctx, v, only=lambda f: f.key.startswith("priority_queue::"))
+    ctx.floor("R-RESTORE[PriorityQueue]", sum(1 for o in ctx.obs if o.rule == "R-RESTORE" and o.config == v.config), 15)
 
 
-def _iter_rules_c13(ctx, view):
-    rules_iter.r_esi(ctx, view, only_types=lambda T: not T.endswith("IterMut"), key_floor=4)
+def c02(ctx, v):
+    O.r_restore(ctx, v, DPQ)
+    O.r_upboth(ctx, v, DPQ)
+    O.r_extreme(ctx, v, DPQ)
+    D.r_expose(ctx, v, DPQ)
+    if S:
+        S.r_sift(ctx, v, DPQ)
+    if B:
+        B.r_units(ctx, v, only=lambda f: f.key.startswith("double_priority_queue::"))
+    ctx.floor("R-RESTORE[DoublePriorityQueue]", sum(1 for o in ctx.obs if o.rule == "R-RESTORE" and o.config == v.config), 15)
 
+
+def c03(ctx, v):
+    T.r_tables(ctx, v, want=("R-GROW",))
+    T.r_repair(ctx, v)
+    r_absent(ctx, v)
+    D.r_keymut(ctx, v, only=("k3",))
+    M.r_strat(ctx, v)
+
+
+def r_absent(ctx, v):
+    """operations naming an absent item change nothing: in change_priority(_by), remove, get* every write
+    happens inside the continuation of a successful lookup (closure given to Option::map)"""
+    prog = v.prog
+    ctx.cur = v
+    from .core import OPTION_PAYLOAD_COMBINATORS
+    for name in ("change_priority", "change_priority_by", "remove"):
+        for owner in ("store::Store", PQ, DPQ):
+            f = prog.fn("%s::%s" % (owner, name))
+            ctx.anchor("%s::%s" % (owner, name), f is not None)
+            bad = []
+            for ev in v.fx.events(f):
+                if ev["kind"] == "tw" or (ev["kind"] == "mw" and ev.get("mclass") in ("grow", "clear", "retain", "reorder")):
+                    bad.append("%s line %d" % (ev.get("how") or ev.get("name"), ev["span"]["line"]))
+                if ev["kind"] == "call" and ev["callee"].split("::")[-1] in ("up_heapify", "heapify", "heap_build", "bubble_up", "push"):
+                    bad.append("call %s line %d" % (ev["callee"], ev["span"]["line"]))
+            # the root body may only look up and hand the result to Option combinators
+            ctx.ob("R-ABSENT", "%s::%s" % (owner.split("::")[-1], name), not bad, f.loc(),
+                   "all writes and re-sifts live in the continuation of the successful lookup" if not bad else
+                   "writes outside the found-branch: %s" % "; ".join(bad))
+
+
+def c04(ctx, v):
+    T.r_tables(ctx, v, want=("R-GROW",))
+    T.r_repair(ctx, v)
+    D.r_writers(ctx, v)
+    D.r_unsafekinds(ctx, v)
+    D.r_reset(ctx, v)
+    if B:
+        B.r_units(ctx, v)
+        B.r_bounds(ctx, v)
+
+
+def c05(ctx, v):
+    if C:
+        C.r_cost(ctx, v)
+
+
+def c06(ctx, v):
+    M.r_side(ctx, v)
+    I.r_esi(ctx, v, only_types=lambda T_: T_.endswith("IntoSortedIter"), key_floor=1)
+
+
+def c07(ctx, v):
+    M.r_hint(ctx, v)
+    M.r_strat(ctx, v)
+    only = lambda root, d: d.kind == "BULK"
+    O.r_restore(ctx, v, PQ, only=only)
+    O.r_restore(ctx, v, DPQ, only=only)
+    T.r_tables(ctx, v, want=("R-GROW",), only=lambda f: any(k in f.key for k in ("::from", "::from_iter", "::extend", "::append")))
+
+
+def c08(ctx, v):
+    sel = lambda root, d: d.kind in ("BULK", "PRED") and any(
+        k in root.key for k in ("retain", "pop_if", "pop_min_if", "pop_max_if", "iter_mut", "IterMut", "into_iter"))
+    O.r_restore(ctx, v, PQ, only=sel)
+    O.r_restore(ctx, v, DPQ, only=sel)
+    M.r_once(ctx, v)
+    T.r_tables(ctx, v, want=("R-GROW",), only=lambda f: "retain" in f.key)
+    D.r_expose(ctx, v, PQ)
+    D.r_expose(ctx, v, DPQ)
+    O.r_extreme(ctx, v, PQ, only=("pop_if",))
+    O.r_extreme(ctx, v, DPQ, only=("pop_min_if", "pop_max_if"))
+
+
+def c09(ctx, v):
+    I.r_cursor(ctx, v)
+    I.r_esi(ctx, v, only_types=lambda T_: T_.endswith("IterMut"), key_floor=1)
+
+
+def c10(ctx, v):
+    T.r_tables(ctx, v, want=("R-TORN",))
+    D.r_dropless(ctx, v)
+    D.r_unsafekinds(ctx, v)
+    D.r_reset(ctx, v, only=("drain",))
+
+
+def c11(ctx, v):
+    M.r_strict(ctx, v)
+    sel = lambda root, d: root.name in ("push_increase", "push_decrease", "push")
+    O.r_restore(ctx, v, PQ, only=sel)
+    O.r_restore(ctx, v, DPQ, only=sel)
+
+
+def c12(ctx, v):
+    D.r_keymut(ctx, v)
+
+
+def c13(ctx, v):
+    I.r_esi(ctx, v, only_types=lambda T_: not T_.endswith("IterMut"), key_floor=4)
+    I.r_wiring_all(ctx, v)
+
+
+def c14(ctx, v):
+    D.r_eqfoot(ctx, v)
+
+
+def c15(ctx, v):
+    if v.config != "serde":
+        return
+    M.r_serde(ctx, v)
+    only = lambda root, d: "Deserialize" in root.key
+    O.r_restore(ctx, v, PQ, only=only)
+    O.r_restore(ctx, v, DPQ, only=only)
+    T.r_tables(ctx, v, want=("R-GROW",), only=lambda f: "serde" in f.key or "visit_seq" in f.key)
+    n = sum(1 for o in ctx.obs if o.rule == "R-RESTORE" and o.config == "serde")
+    ctx.floor("R-RESTORE[Deserialize]", n, 2)
+
+
+def c16(ctx, v):
+    D.r_reset(ctx, v)
+    D.r_dropless(ctx, v)
+    I.r_esi(ctx, v, only_types=lambda T_: T_.endswith("Drain"), key_floor=1)
+
+
+def c17(ctx, v):
+    D.r_capfwd(ctx, v)
+
+
+def c18(ctx, v):
+    D.r_nohash(ctx, v)
+
+
+TRUST_RUSTC = "rustc type checking, trait resolution and MIR construction (the analysis reads what the compiler compiles)"
 
 PROPS = {
-    "C09": {
-        "rules": [_iter_rules_c09],
-        "explanation": "R-CURSOR over every function that turns a raw pointer back into a reference (the complete set of "
-                       "lifetime extensions, enumerated from MIR): single cursor per method, strict direction, distinct front/back "
-                       "cursors, strict front<back guard dominating every yield, len() = distance between cursors; R-ESI e1/e2/e4 for the IterMut types.",
-        "trusted": ["rustc type check + MIR construction", "indexmap: get_index_mut2(k) yields disjoint entries for distinct k"],
-        "assumptions": ["a slot index is produced at most once per iterator lifetime iff the cursor discipline holds"],
-    },
-    "C13": {
-        "rules": [_iter_rules_c13],
-        "explanation": "R-ESI for every `impl ExactSizeIterator` of the crate: size_hint defined (e1), size_hint and len agree (e2), "
-                       "every overridden Iterator/DoubleEndedIterator method of a delegating wrapper forwards to the same-named method of "
-                       "the same inner field (e3), self-made iterators override only next/next_back/size_hint/len, fusedness (e4).",
-        "trusted": ["indexmap iterators are exact, fused and double-ended-consistent (documented contract)"],
-        "assumptions": [],
-    },
+    "C01": {"rules": [c01], "explanation":
+            "R-RESTORE: every dirty event of PriorityQueue (priority write through the entry API, Store::change_priority(_by), swap_remove, "
+            "swap_remove_if, Store::remove, new leaf, bulk Store operations, taking another queue's Store, IterMut) is followed on every "
+            "feasible normal path by a restorer sufficient for its kind and addressed to the same position (value provenance), vacuity guards "
+            "recognised exactly (pos >= len, len <= 1); R-UPBOTH on up_heapify; R-EXTREME: peek/peek_mut/pop/pop_if address the root and "
+            "yield None on the empty queue; R-EXPOSE: the frozen inventory of APIs handing out &mut P; R-SIFT: role-based comparison facts of "
+            "heapify/bubble_up/heap_build against the max-heap specification; R-UNITS on the sift functions.",
+            "trusted": [TRUST_RUSTC, "indexmap contracts"], "assumptions": ["restorers are correct given R-SIFT's structural facts"]},
+    "C02": {"rules": [c02], "explanation":
+            "As C01 for DoublePriorityQueue: R-RESTORE (pop_min/pop_max -> heapify(find_*), pop_max_if -> up_heapify), R-UPBOTH (both ends of the "
+            "move re-sifted), R-EXTREME for the min and the max accessor groups incl. the arms of find_min/find_max, R-EXPOSE, R-SIFT incl. "
+            "R-DUAL (heapify_min/max and bubble_up_min/max are polarity duals; candidate set is children+grandchildren).",
+            "trusted": [TRUST_RUSTC, "indexmap contracts"], "assumptions": []},
+    "C03": {"rules": [c03], "explanation":
+            "R-GROW (table-consistency automaton over every feasible path of every table-writing body: map, heap, qp and size change by the same "
+            "amount; growth only for an absent key), R-REPAIR (index repairs of the shrink primitives are reached on every path), R-ABSENT "
+            "(absent-item paths are effect-free), R-KEYMUT k3 (sifts move indices, never entries), R-STRAT (which of item/priority a bulk path "
+            "writes for a present key).",
+            "trusted": [TRUST_RUSTC, "indexmap: swap_remove moves only the last entry"], "assumptions": []},
+    "C04": {"rules": [c04], "explanation":
+            "R-BOUNDS: every get_unchecked(_mut), unsafe call, unwrap and overflow-checked arithmetic site has a recognised justification relative "
+            "to the representation invariant (dominating guard, value read from the inverse table, index returned by indexmap, parameter -> "
+            "precondition discharged at every call site); R-UNITS (heap subscripts are Positions, qp/map-slot subscripts are Indexes); R-GROW, "
+            "R-REPAIR, R-RESET (structural conditions for the invariant); R-WRITERS (who writes the tables); R-UNSAFEKINDS.",
+            "trusted": [TRUST_RUSTC], "assumptions": ["container lengths <= isize::MAX (no overflow of len+1, 2*i+2)"]},
+    "C05": {"rules": [c05], "explanation":
+            "R-COST: comparison-cost class of every public entry point from the reachability of priority-comparison sites (parametricity: "
+            "Ord/PartialOrd predicates on P) and loop shape: ZERO (no comparison reachable), ONE (peek_max: one selection over a 2-array), LOG "
+            "(comparisons only outside loops or inside tree-path loops whose induction Position moves by parent/child steps; no bulk function "
+            "reachable), BULK (exactly one heap_build outside loops; Floyd shape of heap_build).",
+            "trusted": [TRUST_RUSTC], "assumptions": ["constants of the bounds are asserted from the shape, not derived"]},
+    "C06": {"rules": [c06], "explanation":
+            "R-SIDE: which end each sorted consumer uses (next=pop/pop_min, next_back=pop_max), consumption by the pop family only (each yielded "
+            "element leaves the queue), into_*_vec loops push every popped item and leave only on None, len() is the queue's length; R-ESI for "
+            "the sorted iterator.", "trusted": [TRUST_RUSTC], "assumptions": ["monotonicity itself is C01/C02's undecided core"]},
+    "C07": {"rules": [c07], "explanation":
+            "R-HINT (taint: the upper bound of Iterator::size_hint reaches no allocation request and no overflow-checked arithmetic, "
+            "interprocedurally), R-STRAT (first/last/receiver-wins table; both Extend strategies write the same part of a present entry; append "
+            "swaps only if other is strictly longer and always drains other), R-RESTORE BULK instances (heap_build after every bulk path), "
+            "R-GROW for from/from_iter/extend/append.", "trusted": [TRUST_RUSTC], "assumptions": []},
+    "C08": {"rules": [c08], "explanation":
+            "R-RESTORE for retain/retain_mut/pop_*_if/IterMut-Drop, R-ONCE (user predicate invoked exactly once per element/call, only through "
+            "the Store primitive), R-IFF (swap_remove_if removes iff the predicate accepted; the refused path writes nothing), R-GROW retain "
+            "group, R-EXTREME (predicate sees the extreme), R-EXPOSE.", "trusted": [TRUST_RUSTC, "indexmap retain2 visits each entry once"],
+            "assumptions": []},
+    "C09": {"rules": [c09], "explanation":
+            "R-CURSOR over every function that turns a raw pointer back into a reference (the complete set of lifetime extensions, enumerated "
+            "from MIR): single cursor per method, strict direction, distinct front/back cursors, strict front<back guard dominating every yield, "
+            "len() = distance between the cursors; R-ESI e1/e2/e4/e5 for the IterMut types.",
+            "trusted": [TRUST_RUSTC, "indexmap: get_index_mut2(k) yields disjoint entries for distinct k"], "assumptions": []},
+    "C10": {"rules": [c10], "explanation":
+            "R-TORN: by parametricity a panic can start only at a call site that may run user code; the table-consistency automaton shows that at "
+            "every such site on every feasible path of every table-writing body of a published store no growth/shrink/reset group is open, no "
+            "slot index is duplicated (moving hole) and no raw write lacks its inverse-table counterpart; R-DROPLESS (no destructor is relied "
+            "on), R-UNSAFEKINDS + Copy tables (no double drop / leak by ownership), R-RESET for drain.",
+            "trusted": [TRUST_RUSTC, "indexmap stays memory safe when a user callback unwinds"], "assumptions": ["panics in user Drop impls are outside the property"]},
+    "C11": {"rules": [c11], "explanation":
+            "R-STRICT: exactly one priority comparison, normalised for operand order, strict and in the right direction between the offered "
+            "priority and the stored one; absent item is pushed; true edge returns push(item, priority), false edge is effect-free and returns "
+            "Some(priority); R-RESTORE for the push family.", "trusted": [TRUST_RUSTC], "assumptions": []},
+    "C12": {"rules": [c12], "explanation":
+            "R-KEYMUT, a who-may-call rule over the typed indexmap API: (k1) the set of functions that can obtain `&mut I` of a stored key equals "
+            "the sanctioned accessor set, (k2) push/push_increase/push_decrease/change_priority(_by) reach neither such a function nor any "
+            "entry-removing or reordering map write, (k3) the sift functions never write the map, (k4) lookups forward the borrowed key unmodified.",
+            "trusted": [TRUST_RUSTC, "indexmap: insert/entry keep the stored key of a present entry; only MutableKeys/replace APIs yield &mut K"],
+            "assumptions": ["interior mutability inside user item types is outside the property"]},
+    "C13": {"rules": [c13], "explanation":
+            "R-ESI for every `impl ExactSizeIterator`: size_hint defined (e1), size_hint and len agree (e2), every overridden "
+            "Iterator/DoubleEndedIterator method of a delegating wrapper forwards to the same-named method of the same inner field (e3), "
+            "self-made iterators override only next/next_back/size_hint/len, fusedness (e4); wiring of every Iterator impl of the crate.",
+            "trusted": [TRUST_RUSTC, "indexmap iterators are exact, fused and double-ended-consistent"], "assumptions": []},
+    "C14": {"rules": [c14], "explanation":
+            "R-EQFOOT: Store::eq is exactly IndexMap's equality of the two `map` fields (footprint {map}), both queue eq impls delegate to it and "
+            "define no `ne`; Clone for Store and both queues is derived or field-complete (incl. clone_from); every field type owns its data.",
+            "trusted": [TRUST_RUSTC, "indexmap PartialEq is set equality of (key,value) pairs"], "assumptions": []},
+    "C15": {"rules": [c15], "explanation":
+            "serde configuration: R-SERDE (writer and reader use a sequence of (item, priority) pairs of the same arity and order; both queue kinds "
+            "delegate to Store's impls), R-GROW on visit_seq (tables grow only for a new key), R-RESTORE on both Deserialize impls (heap_build).",
+            "trusted": [TRUST_RUSTC, "serde data model"], "assumptions": ["value equality of a round trip is not decided"]},
+    "C16": {"rules": [c16], "explanation":
+            "R-RESET: Store::drain and Store::clear empty heap, qp, size and map on every normal path; in drain the three table resets dominate the "
+            "creation of the inner full-range map drain and the returned iterator wraps exactly it (nothing deferred to a destructor, so "
+            "mem::forget is harmless); public drain/clear only delegate. R-DROPLESS; R-ESI wiring for Drain.",
+            "trusted": [TRUST_RUSTC, "indexmap::Drain empties the map even when leaked"], "assumptions": []},
+    "C17": {"rules": [c17], "explanation":
+            "R-CAPFWD: each capacity method of Store calls the same-named method of map, heap and qp with the unmodified argument on every "
+            "successful path and does nothing else; try_ forms contain no panicking construct and propagate errors with `?`; queue methods "
+            "delegate; capacity() is map.capacity(); with_capacity gives the capacity to all three containers; capacity-invisibility.",
+            "trusted": [TRUST_RUSTC, "std/indexmap reserve contracts"], "assumptions": []},
+    "C18": {"rules": [c18], "explanation":
+            "R-NOHASH: no call site in any crate body resolves to a method of Hash/Hasher/BuildHasher, to IndexMap::hasher or to a raw-hash API; "
+            "values of the hasher type flow only into constructors; no comparison bound on the hasher parameter. By parametricity the crate can "
+            "then depend on the hasher only through the insertion-ordered map.",
+            "trusted": [TRUST_RUSTC, "indexmap is hasher-independent as an insertion-ordered map given consistent Hash/Eq"], "assumptions": []},
 }
-
-
-PROPS.update({
-    "C12": {
-        "rules": [D.r_keymut],
-        "explanation": "R-KEYMUT, a who-may-call rule over the typed indexmap API: (k1) the set of functions that can obtain `&mut I` of a "
-                       "stored key equals the sanctioned accessor set, (k2) push/push_increase/push_decrease/change_priority(_by) reach "
-                       "neither such a function nor any entry-removing or reordering map write, (k3) the sift functions never write the map, "
-                       "(k4) lookups forward the borrowed key unmodified.",
-        "trusted": ["indexmap: insert/entry keep the stored key of a present entry; only MutableKeys/replace APIs yield &mut K"],
-        "assumptions": ["interior mutability inside user item types is outside the property"],
-    },
-    "C14": {
-        "rules": [D.r_eqfoot],
-        "explanation": "R-EQFOOT: Store::eq is exactly IndexMap's equality of the two `map` fields (footprint {map}), both queue eq impls "
-                       "delegate to it and define no `ne`; Clone for Store and both queues is derived or field-complete (incl. clone_from); "
-                       "every field type owns its data.",
-        "trusted": ["indexmap PartialEq is set equality of (key,value) pairs, hasher- and order-independent"],
-        "assumptions": [],
-    },
-    "C16": {
-        "rules": [D.r_reset, D.r_dropless],
-        "explanation": "R-RESET: Store::drain and Store::clear empty heap, qp, size and map on every normal path; in drain the three table "
-                       "resets dominate the creation of the inner full-range map drain and the returned iterator wraps exactly it (nothing "
-                       "deferred to a destructor, so mem::forget is harmless); public drain/clear only delegate. R-DROPLESS: the only Drop "
-                       "impls are the two IterMut, whose constructors write nothing.",
-        "trusted": ["indexmap::Drain empties the map even when leaked (drain leak-safety of std Vec::drain)"],
-        "assumptions": [],
-    },
-    "C17": {
-        "rules": [D.r_capfwd],
-        "explanation": "R-CAPFWD: each capacity method of Store calls the same-named method of map, heap and qp with the unmodified argument "
-                       "on every successful path and does nothing else; try_ forms contain no panicking construct and propagate errors with `?`; "
-                       "queue methods delegate; capacity() is map.capacity(); with_capacity gives the capacity to all three containers; "
-                       "capacity-invisibility: a capacity() result is only ever returned by a capacity accessor.",
-        "trusted": ["std/indexmap reserve contracts (capacity >= len + additional)"],
-        "assumptions": [],
-    },
-    "C18": {
-        "rules": [D.r_nohash],
-        "explanation": "R-NOHASH: no call site in any crate body resolves to a method of Hash/Hasher/BuildHasher, to IndexMap::hasher or to a "
-                       "raw-hash API; values of the hasher type flow only into constructors; the hasher parameter carries only BuildHasher(+Default) "
-                       "bounds. By parametricity the crate can then depend on the hasher only through the insertion-ordered map.",
-        "trusted": ["indexmap's observable behaviour as an insertion-ordered map is hasher-independent given consistent Hash/Eq"],
-        "assumptions": [],
-    },
-})
 
 
 def configs_for(pid, tier):
@@ -94,3 +291,6 @@ def run(ctx, pid, tier):
         view = ctx.view(cfg)
         for r in spec["rules"]:
             r(ctx, view)
+    if tier == "thorough":
+        from . import thorough
+        thorough.run(ctx, pid)
